@@ -606,6 +606,26 @@ class World:
                 r.violation('C07/reply-depends-on-other-lines', f'{req[:60]!r}: alone {alone!r}, in stream {rep[:100]!r}'[:300], case)
                 return
 
+    def run_long_line(self, rng, size):
+        """one very long request line between two ordinary ones: one reply per line, in order, whatever the length"""
+        r = self.r
+        nonce = bytes(rng.choice(b'abcdefghijklmnopqrstuvwxyz0123456789') for _ in range(64)) * (size // 64)
+        stream = b'ping first\n' + b'ping ' + nonce + b'\nping last\n'
+        case = {'stream': f'ping first / ping <{len(nonce)} bytes> / ping last', 'classes': ['long-line'], 'size': len(nonce)}
+        ref, errs, left = self.run([stream])
+        r.count('very_long_lines')
+        r.case(('long-line', size), True)
+        lines = ref.split(b'\n')[:-1]
+        heads = [l[:40] for l in lines]
+        if len(lines) != 3 or not lines[0].startswith(b'pong first') or not lines[2].startswith(b'pong last') or \
+                not (lines[1].startswith(b'pong ' + nonce[:30]) or lines[1].startswith(b'error_ping ')):
+            r.violation('C07/long-line/replies-do-not-match-the-lines', f'three request lines (the second {len(nonce)} bytes long) got {len(lines)} reply lines: {heads}', case)
+            return
+        half = len(stream) // 2
+        out, errs2, left2 = self.run([stream[:half], stream[half:]])
+        if out != ref:
+            r.violation('C07/segmentation-dependent-output', f'long line of {len(nonce)} bytes cut in the middle: other output ({[l[:40] for l in out.split(bytes([10]))[:5]]})', case)
+
     @staticmethod
     def stateless(req):
         s = req.strip()
@@ -654,6 +674,8 @@ def run_shard(shard):
         r.count('exhaustive_short_streams')
     else:
         r.count('exhaustive_short_streams', 0)
+    if shard['idx'] < 4:
+        w.run_long_line(rng, [70_000, 1_100_000, 1_600_000, 2_200_000][shard['idx']])
     for _ in range(12 if shard.get('tier') == 'quick' else 400):
         w.run_concurrent_send(rng)
     for _ in range(30 if shard.get('tier') == 'quick' else 1500):
